@@ -1,6 +1,7 @@
 package main
 
 import (
+	"math"
 	"math/rand"
 
 	"github.com/esimov/gogu/cache"
@@ -25,7 +26,14 @@ func kvb(k, v int, ok bool) tt.Res { return tt.Res{Ok: ok, S: []int{k, v}} }
 func (s *lruSys) Do(o tt.Op) tt.Res {
 	switch o.N {
 	case "new":
-		c, err := cache.NewLRU[int, int](o.A[0])
+		// capacities at the limits of int do not fit the validator's 32-bit integers: +-2000000000 stand for them
+		n := o.A[0]
+		if n == 2000000000 {
+			n = math.MaxInt
+		} else if n == -2000000000 {
+			n = math.MinInt
+		}
+		c, err := cache.NewLRU[int, int](n)
 		s.c = c
 		return tt.Res{Ok: err == nil && c != nil}
 	case "add":
@@ -84,7 +92,8 @@ func lruExplorer(depth int) *tt.Explorer {
 		ZeroProj: lruProj{Y: []int{0, 0, 0}},
 		Ops: func(path []tt.Op) []tt.Op {
 			if len(path) == 0 {
-				return []tt.Op{op("new", 1), op("new", 2), op("new", 3), op("new", 4), op("new", 0), op("new", -1)}
+				return []tt.Op{op("new", 1), op("new", 2), op("new", 3), op("new", 4), op("new", 0), op("new", -1),
+					op("new", 2000000000), op("new", -2000000000)}
 			}
 			capa := path[0].A[0]
 			if capa <= 0 {
@@ -93,6 +102,9 @@ func lruExplorer(depth int) *tt.Explorer {
 			d := depth
 			if capa == 4 {
 				d = depth - 1
+			}
+			if capa > 1000 { // "unbounded": a few keys, one level less
+				capa, d = 2, depth-1
 			}
 			if len(path) > d {
 				return nil
@@ -120,8 +132,11 @@ func lruLinear(cfg Config, file string, runs, steps int) (int, error) {
 	}
 	rng := rand.New(rand.NewSource(cfg.Seed))
 	for r := 0; r < runs; r++ {
-		capa := []int{5, 16, 64}[r%3]
+		capa := []int{5, 16, 64, 2000000000, 2147483647}[r%5]
 		keys := capa * 3
+		if capa > 1000 {
+			keys = 12
+		}
 		s := &lruSys{keys: keys}
 		ls.Run(s, func(st int) (tt.Op, bool) {
 			if st == 0 {
@@ -193,6 +208,11 @@ func init() {
 			s.Leaves += runs
 			s.Extra["linear_runs"] = runs
 			s.Extra["linear_nodes"] = n
+			if err := sparsePass(cfg, s, func(f string) (int, error) {
+				return lruLinear(cfg, f, runs, steps)
+			}); err != nil {
+				return nil, err
+			}
 			return s, nil
 		},
 		newSys: func(variant string) (func() tt.Sys, any) {
